@@ -644,7 +644,7 @@ class C11(Prop):
         if variant == "seq":
             plan["mismatch"] = t.draw(8) == 7
             plan["ops"] = gen_ops(t)
-            plan["via_session"] = t.choice([None, None, None, "returns", "raises"])
+            plan["via_session"] = t.choice([None, None, None, "returns", "raises", "raises-http"])
             # fault: the application gives up on a first accept() (wait_for timeout) while the handshake event is still on its way -
             # the call is cancelled at its await; afterwards the history goes on as if it had never been made
             if t.draw(8) == 0:
@@ -786,11 +786,16 @@ class C11(Prop):
                     if plan["via_session"] == "raises":
                         ctx.fault("view_raises")
                         raise ViewFailure("the view failed after its last call")
+                    if plan["via_session"] == "raises-http":
+                        from baize.exceptions import HTTPException
+                        ctx.fault("view_raises")
+                        raise HTTPException(400)
 
                 async def prog():
+                    from baize.exceptions import HTTPException
                     try:
                         await websocket_session(view)(run.peer.scope, run.peer.receive, run.peer.send)
-                    except ViewFailure:
+                    except (ViewFailure, HTTPException):
                         pass
                 tasks = [loop.create_task(prog(), name="main")]
             elif plan["variant"] == "seq":
